@@ -392,6 +392,11 @@ func (g *gen) object(depth int, feature bool) string {
 			reqVal = rapid.SampledFrom([]string{"null", "[]", `"Point"`, "5"}).Draw(t, "badgeom")
 		} else {
 			reqVal = g.object(depth-1, false)
+			if !g.o.NoCircle && rapid.IntRange(0, 9).Draw(t, "circleprops") == 0 {
+				// the Circle members on a Feature whose geometry is (usually) not a Point: it stays a Feature
+				extra = append(extra, `"properties"`+g.ws()+`:{"type":"Circle","radius":`+rapid.SampledFrom([]string{"100", "2500.5", "1e6"}).Draw(t, "radius2")+
+					rapid.SampledFrom([]string{``, `,"radius_units":"km"`, `,"radius_units":"ft"`}).Draw(t, "units2")+`}`)
+			}
 		}
 	}
 	if g.mutate("reqkind") {
